@@ -23,7 +23,7 @@ use std::sync::atomic::{AtomicU64, Ordering};
 
 use dora_frontend::sema::{Sema, SemaCreationParams};
 use dora_frontend::{ErrorDescriptor, check_program, emit_program};
-use vhc::textgen::{Case, Corpus};
+use vhc::textgen::Case;
 use vhc::{Args, Rng, Value, catch, json, msg_class};
 
 mod fams;
@@ -342,7 +342,7 @@ fn guarded(idx: u64, text: Arc<String>) -> CaseResult {
 }
 
 fn run_front(args: &Args) {
-    let corpus = Corpus::load(args.extra.as_deref());
+    let corpus = fams::Bases::load(args.extra.as_deref(), args.get("bases").unwrap_or("run"));
     let fams = fams::select_families(args.get("families").unwrap_or("default"));
     let cli_every: u64 = args.get("cli_every").map(|s| s.parse().unwrap()).unwrap_or(0);
     let clidir = args.get("clidir").map(PathBuf::from);
@@ -355,7 +355,7 @@ fn run_front(args: &Args) {
     rep.line(json!({"t": "calib", "base_ms": base, "limit_ms": limit_ms}));
     let mut n = 0u64;
     for idx in args.indices() {
-        let case: Case = fams::gen_case(&corpus, &fams, args.seed, idx);
+        let (case, base): (Case, String) = fams::gen_case(&corpus, &fams, args.seed, idx);
         rep.begin_case(idx, case.text.as_bytes());
         let h = vhc::fnv(case.text.as_bytes());
         let to_cli = cli_every > 0 && Rng::new(args.seed, 0xc11, idx).below(cli_every as usize) == 0;
@@ -417,7 +417,7 @@ fn run_front(args: &Args) {
                 e.1 = e.1.min(text.len());
             }
             let input: &str = if with_input { text.as_str() } else { "" };
-            rep.line(json!({"t": "bad", "idx": idx, "key": key, "what": what, "family": case.family, "input": input}));
+            rep.line(json!({"t": "bad", "idx": idx, "key": key, "what": what, "family": case.family, "base": base, "input": input}));
         }
         n += 1;
         if n % 64 == 0 {
@@ -456,11 +456,11 @@ fn main() {
         "front" => run_front(&args),
         "file" => run_file(&args),
         "show" => {
-            let corpus = Corpus::load(args.extra.as_deref());
+            let corpus = fams::Bases::load(args.extra.as_deref(), args.get("bases").unwrap_or("run"));
             let fams = fams::select_families(args.get("families").unwrap_or("default"));
             for idx in args.indices() {
-                let case = fams::gen_case(&corpus, &fams, args.seed, idx);
-                println!("// ---- idx {} family {}\n{}", idx, case.family, case.text);
+                let (case, base) = fams::gen_case(&corpus, &fams, args.seed, idx);
+                println!("// ---- idx {} family {} base {}\n{}", idx, case.family, base, case.text);
             }
         }
         "families" => {
